@@ -602,6 +602,14 @@ fn check_checksum_sweeps(rep: &mut Report, thorough: bool) -> u64 {
     n
 }
 
+pub fn wire_cases(_tier: &str) -> Vec<Value> {
+    vec![]
+}
+
+pub fn wire_run_case(_case: &Value) -> crate::netrun::CaseResult {
+    crate::netrun::CaseResult::ok("")
+}
+
 pub fn run(tier: &str, replay: Option<Value>) -> ! {
     let mut rep = Report::new("C12", if replay.is_some() { "quick" } else { tier }, "exploration");
     if let Some(case) = replay {
